@@ -881,7 +881,8 @@ class ValueFunc(Value):
         self.serial = next(_serial)
 
     def __hash__(self):
-        return hash(self.name)
+        # not the name: def renames an anonymous function
+        return hash(self.serial)
 
     def __eq__(self, other):
         return self is other
